@@ -207,7 +207,7 @@ def check_state(ctx, mesh, expected, site, inst, mhist=0.0, extract=True):
 # attaching: every aligned box accepted, every bad variant refused
 
 
-def _variants(ref, box, ax):
+def _variants(ref, box, ax, tier="thorough"):
     """refused candidates derived from an aligned box by changing axis ax: (label, lo_t, hi_t, frac)
     in cell units (exact rationals); frac = size of the deviation in cells"""
     i, j = box[ax]
@@ -216,6 +216,13 @@ def _variants(ref, box, ax):
     for lab, d in (("shift0.5", Fr(1, 2)), ("shift0.25", Fr(1, 4)), ("shift0.1", Fr(1, 10)), ("shift0.01", Fr(1, 100))):
         out.append((lab, i + d, j + d, d))
         out.append((lab, i - d, j - d, d))
+    # one face only, by a small fraction of a cell (far outside the region's comparison tolerance, far inside any loose
+    # "about a whole number of cells" test)
+    for lab, d in (("one-face-off-1e-6", Fr(1, 1000000)),) + ((("one-face-off-1e-4", Fr(1, 10000)),) if tier == "thorough" else ()):
+        out.append((lab, i, j + d, d))
+        out.append((lab, i, j - d, d))
+        out.append((lab, i + d, j, d))
+        out.append((lab, i - d, j, d))
     out.append(("beyond-upper-end", i, n + 1, Fr(1)))
     out.append(("beyond-lower-end", -1, j, Fr(1)))
     out.append(("fractional-width", i, i + Fr(3, 2), Fr(1, 2)))
@@ -267,7 +274,7 @@ def _attach(ctx, mesh, box, inst):
     else:
         keep = {"s": box}
     for ax in range(ndim):
-        for lab, lo_t, hi_t, frac in _variants(ref, box, ax):
+        for lab, lo_t, hi_t, frac in _variants(ref, box, ax, ctx.tier):
             if not ref.far_enough(ax, frac):
                 ctx.note("variant-inside-tolerance-not-probed")
                 continue
